@@ -305,6 +305,8 @@ pub fn c15(eng: &mut Engine, rng: &mut Rng, thorough: bool, out: &mut Out) -> Ca
         out.count_n("c15:b64:accepted-texts", accepted);
         // the tagged proof value (op codec_pv, model WirePv): msgpack sequences assembled from real payloads of the three kinds, integers
         // in every msgpack integer format and other values; which kind the hand-written visitor accepts
+        let mut pv_texts: Vec<(String, String, Value)> = vec![];
+        let mut real_payloads: Vec<(String, Vec<u8>, Value)> = vec![];
         {
             use anoncreds::data_types::w3c::proof::{DataIntegrityProof, DataIntegrityProofValue};
             let proof_obj = serde_json::to_value(&eng.cast.creds[0].w3c).unwrap()["proof"][0].clone();
@@ -315,6 +317,32 @@ pub fn c15(eng: &mut Engine, rng: &mut Rng, thorough: bool, out: &mut Out) -> Ca
                 let pj = serde_json::to_value(&b.pres).unwrap();
                 payloads[2] = bytes_of(&pj["verifiableCredential"][0]["proof"]).map(|b| b[2..].to_vec());
                 payloads[3] = bytes_of(&pj["proof"]).map(|b| b[2..].to_vec());
+            }
+            // the payload structures themselves (op mp_json, model Msgpack): the bytes of every real proof value of the cast and of
+            // honest presentations, decoded by the model, are the document serde_json prints for the structure the library decoded
+            {
+                let mut proofs: Vec<Value> = vec![];
+                for c in eng.cast.creds.iter() { let j = serde_json::to_value(&c.w3c).unwrap(); if let Some(a) = j["proof"].as_array() { proofs.extend(a.iter().cloned()); } else { proofs.push(j["proof"].clone()); } }
+                for _ in 0..(if thorough { 12 } else { 3 }) {
+                    let plan = crate::scen::gen_honest_plan(rng, &eng.cast, true, false);
+                    if let Ok(b) = eng.build_w3c(&plan) {
+                        let pj = serde_json::to_value(&b.pres).unwrap();
+                        proofs.push(pj["proof"].clone());
+                        if let Some(vcs) = pj["verifiableCredential"].as_array() { for vc in vcs { proofs.push(vc["proof"].clone()); } }
+                    }
+                }
+                for p in proofs {
+                    let Some(bytes) = bytes_of(&p) else { continue };
+                    let Ok(d) = serde_json::from_value::<DataIntegrityProof>(p.clone()) else { continue };
+                    let (k, doc) = match d.get_proof_value() {
+                        DataIntegrityProofValue::CredentialSignature(x) => (1, serde_json::to_value(x).unwrap()),
+                        DataIntegrityProofValue::CredentialPresentation(x) => (2, serde_json::to_value(x).unwrap()),
+                        DataIntegrityProofValue::Presentation(x) => (3, serde_json::to_value(x).unwrap()),
+                    };
+                    let _ = doc;
+                    real_payloads.push((format!("kind{k}"), bytes.clone(), Value::Null));
+                    if let Some(pt) = crate::mp::payload_tree(&bytes) { pv_texts.push((format!("real-kind{k}"), p["proofValue"].as_str().unwrap().to_string(), json!({"kind": k, "payload": pt}))); }
+                }
             }
             if payloads[1..].iter().all(|p| p.is_some()) {
                 let int_bytes = |n: i64, wide: bool| -> Vec<u8> {
@@ -368,11 +396,31 @@ pub fn c15(eng: &mut Engine, rng: &mut Rng, thorough: bool, out: &mut Out) -> Ca
                     let mut bytes = vec![0x90u8 | items.len() as u8];
                     for (_, b) in &items { bytes.extend_from_slice(b); }
                     let mut p = proof_obj.clone();
-                    p["proofValue"] = json!(format!("u{}", base64_encode(&bytes)));
-                    let imp = match serde_json::from_value::<DataIntegrityProof>(p) {
+                    let text = format!("u{}", base64_encode(&bytes));
+                    p["proofValue"] = json!(text);
+                    let parsed = serde_json::from_value::<DataIntegrityProof>(p);
+                    let imp = match &parsed {
                         Err(_) => json!({"err": true}),
                         Ok(d) => match d.get_proof_value() { DataIntegrityProofValue::CredentialSignature(_) => json!(1), DataIntegrityProofValue::CredentialPresentation(_) => json!(2), DataIntegrityProofValue::Presentation(_) => json!(3) },
                     };
+                    // the same text through the whole model chain (op pv_read: header, base64url, msgpack, tagged sequence): exact when the
+                    // library accepts (kind and the payload's document), and when it refuses for a reason the untyped layers can see
+                    // (not two elements, first element not a tag 1..3); a payload of the wrong structure is the typed layer's refusal
+                    match &parsed {
+                        Ok(d) => {
+                            let (k, doc) = match d.get_proof_value() {
+                                DataIntegrityProofValue::CredentialSignature(x) => (1, serde_json::to_value(x).unwrap()),
+                                DataIntegrityProofValue::CredentialPresentation(x) => (2, serde_json::to_value(x).unwrap()),
+                                DataIntegrityProofValue::Presentation(x) => (3, serde_json::to_value(x).unwrap()),
+                            };
+                            let _ = doc;
+                            if let Some(pt) = crate::mp::payload_tree(&bytes) { pv_texts.push((format!("seq-{cls}"), text.clone(), json!({"kind": k, "payload": pt}))); }
+                        }
+                        Err(_) => {
+                            let tag_ok = items.first().and_then(|(a, _)| a["int"].as_i64()).map(|t| (1..=3).contains(&t)).unwrap_or(false);
+                            if items.len() != 2 || !tag_ok { pv_texts.push((format!("seq-{cls}"), text.clone(), json!({"err": true}))); }
+                        }
+                    }
                     out.count(&format!("c15:pv-seq:{cls}:{}", if imp.is_number() { "accepted" } else { "refused" }));
                     cases.push((json!({"op":"codec_pv","fam":"c15.b64","cls":format!("seq-{cls}"),"items":items.iter().map(|(a, _)| a.clone()).collect::<Vec<_>>(),"nt":true}), imp));
                 }
@@ -404,6 +452,7 @@ pub fn c15(eng: &mut Engine, rng: &mut Rng, thorough: bool, out: &mut Out) -> Ca
                 cases.push((json!({"op":"pv_decode","fam":"c15.b64","cls":format!("pv-{cls}"),"s":t,"nt":true}), json!({"accepted": ok})));
             }
         }
+        cases.extend(crate::mp::cases(rng, thorough, out, &real_payloads, &pv_texts));
     }
     let n = if thorough { 400 } else { 16 };
     for i in 0..n {
